@@ -937,6 +937,8 @@ fn replay(spec: &Spec, body: fn(&mut Ctx), path: &str, seed: u64) -> i32 {
         }
         install_fault_handlers(spec.hang_secs);
     }
+    // checks that can re-execute a single recorded history directly read the key from here
+    std::env::set_var("NBMC_REPLAY_KEY", &v.key);
     let mut obs = Vec::new();
     for _round in 0..2 {
         let mut ctx = Ctx::new(tier, 0, 1, seed, Some((v.space.clone(), v.outer)));
